@@ -528,15 +528,17 @@ fn gen_wrap(thorough: bool, out: &mut dyn FnMut(String)) {
     }
 }
 
-/// the shapes of the soak: distinct, non-empty, at most 60 elements, ranks 1..12 (every tuple over 1..=5), shuffled by the seed
+/// the shapes of the soak: distinct, non-empty, at most 60 elements (120 when more than 100 000 shapes are asked for: there are
+/// only 113 580 tuples up to 60), ranks 1..12 (every tuple over 1..=5), shuffled by the seed
 fn soak_shapes(count: usize, seed: u64) -> Vec<Vec<usize>> {
-    fn go(cur: &mut Vec<usize>, prod: usize, rank: usize, out: &mut Vec<Vec<usize>>, cap: usize) {
+    fn go(cur: &mut Vec<usize>, prod: usize, rank: usize, out: &mut Vec<Vec<usize>>, cap: usize, max_elems: usize) {
         if out.len() >= cap { return; }
         if cur.len() == rank { out.push(cur.clone()); return; }
-        for d in 1..=5usize { if prod * d <= 60 { cur.push(d); go(cur, prod * d, rank, out, cap); cur.pop(); } }
+        for d in 1..=5usize { if prod * d <= max_elems { cur.push(d); go(cur, prod * d, rank, out, cap, max_elems); cur.pop(); } }
     }
+    let max_elems = if count > 100_000 { 120 } else { 60 };
     let mut all = vec![];
-    for rank in 1..=12 { go(&mut vec![], 1, rank, &mut all, 4 * count + 1000); }
+    for rank in 1..=12 { go(&mut vec![], 1, rank, &mut all, 4 * count + 1000, max_elems); }
     assert!(all.len() >= count, "harness: not enough soak shapes ({} < {count})", all.len());
     let mut rng = Rng::new(seed ^ 0x50A4);
     for i in (1..all.len()).rev() { let j = rng.below(i + 1); all.swap(i, j); }
